@@ -275,6 +275,13 @@ def type_name(
             else:
                 bound = getattr(typ, "__bound__")
             return type_name(bound, short, resolved_type_params)
+    elif is_type_alias_type(typ):
+        # a PEP 695 alias has no __qualname__, and its bare name is not
+        # resolvable from the generated code
+        if short:
+            return typ.__name__  # type: ignore[union-attr]
+        else:
+            return f"{typ.__module__}.{typ.__name__}"  # type: ignore
     elif is_new_type(typ) and not PY_310_MIN:
         # because __qualname__ and __module__ are messed up
         typ = typ.__supertype__
